@@ -69,9 +69,20 @@ class Eval:
             if d == 'np.repeat' and len(e.args) >= 2 and not any(
                     k.arg == 'axis' for k in e.keywords):
                 base = e.args[0]
+                dom = getattr(self, 'domain', None)
                 if isinstance(base, ast.Call) and dotted(base.func) == 'np.arange':
+                    if dom is not None:
+                        # r was computed for the rows `dom` only: positions 0..len(dom)-1 are
+                        # positions in the FILTERED set, not rows of the view arrays
+                        return ('IDXDOM', dom, unparse(base)[:40])
+                    return ('IDX', self.ev(e.args[1], env))
+                if dom is not None and isinstance(base, ast.Name) and base.id == dom:
                     return ('IDX', self.ev(e.args[1], env))
                 return UNK
+            if d in ('np.flatnonzero',) and e.args and isinstance(e.args[0], ast.Compare) and \
+                    len(e.args[0].ops) == 1 and isinstance(e.args[0].ops[0], ast.Gt) and \
+                    unparse(e.args[0].comparators[0]) in ('-np.inf', '-inf', "-float('inf')"):
+                return ('SEL', unparse(e.args[0].left))
             if d in ('np.flatnonzero',) and e.args:
                 v = self.ev(e.args[0], env)
                 return ('IDX', v) if v in (B,) else UNK
@@ -141,6 +152,16 @@ class Eval:
                         'np.amax', 'np.max', 'max') and s.right.args and \
                         unparse(s.right.args[0]) == unparse(s.left):
                     return True
+                # the relative weight of a SELECTION of rows: log_w[sel] - max(log_w) with
+                # sel = flatnonzero(log_w > -inf) (the maximum is that of the selected rows)
+                if isinstance(s.right, ast.Call) and dotted(s.right.func) in (
+                        'np.amax', 'np.max', 'max') and s.right.args and \
+                        isinstance(s.left, ast.Subscript) and \
+                        isinstance(s.left.slice, ast.Name) and \
+                        unparse(s.right.args[0]) == unparse(s.left.value) and \
+                        env.get(s.left.slice.id) == ('SEL', unparse(s.left.value)):
+                    self.domain = s.left.slice.id
+                    return True
             return False
         return (is_boost(e.left) and is_relw(e.right)) or (is_boost(e.right) and is_relw(e.left))
 
@@ -197,6 +218,7 @@ def rule_Q5(ctx, rid='Q5'):
         if end != cfg.exit.id:
             continue
         env, facts = {}, []
+        evl.domain = None
         eq = None
         for i, nid in enumerate(path):
             n = cfg.nodes[nid]
@@ -241,7 +263,18 @@ def rule_Q5(ctx, rid='Q5'):
                 mult = s[1] if isinstance(s, tuple) and s[0] == 'IDX' else s
             if mult is not None and eq:
                 key = (nid, tgt)
-                if mult == M:
+                if isinstance(mult, tuple) and mult[0] == 'IDXDOM':
+                    verdict = (False, 'the multiplicities were computed for the selected rows '
+                               '`%s` only, but the gather index `%s` counts positions in that '
+                               'selection and is applied to the unfiltered view array: from the '
+                               'first unselected row on, the repeats of one sample go to '
+                               'another (use np.repeat(%s, ..))' % (mult[1], mult[2], mult[1]))
+                elif evl.domain is not None and isinstance(v, ast.Call) and \
+                        dotted(v.func) == 'np.repeat':
+                    verdict = (False, 'the multiplicities were computed for the selected rows '
+                               '`%s` only but are applied to every row of `%s`'
+                               % (evl.domain, tgt))
+                elif mult == M:
                     verdict = (True, 'multiplicity is floor(r) + [u < r - floor(r)]')
                 elif mult == B:
                     if _boost_below_one(facts, boost):
